@@ -16,6 +16,7 @@ const ALPHA: [&str; 7] = ["$", "\\", "0", "1", "2", "9", "a"];
 
 struct Pat {
     text: &'static str,
+    flags: &'static str,
     groups: usize,
     /// inputs with, per match, the capture texts (index 0 = whole match); None = did not participate
     inputs: Vec<(&'static str, Vec<Vec<Option<&'static str>>>, Vec<&'static str>)>,
@@ -34,17 +35,42 @@ fn pats() -> Vec<Pat> {
         v
     };
     vec![
+        // several matches through the start-anchor path: groups of an earlier
+        // match must not leak into a later one
         Pat {
+            text: "^(?:(a)|(b))",
+            flags: "m",
+            groups: 2,
+            inputs: vec![
+                ("x", vec![], vec!["x"]),
+                ("a\nb", vec![vec![Some("a"), Some("a"), None], vec![Some("b"), None, Some("b")]], vec!["", "\n", ""]),
+                ("b\na\nb", vec![vec![Some("b"), None, Some("b")], vec![Some("a"), Some("a"), None], vec![Some("b"), None, Some("b")]], vec!["", "\n", "\n", ""]),
+            ],
+        },
+        Pat {
+            text: "^(x)?(y)",
+            flags: "m",
+            groups: 2,
+            inputs: vec![
+                ("q", vec![], vec!["q"]),
+                ("xy\ny", vec![vec![Some("xy"), Some("x"), Some("y")], vec![Some("y"), None, Some("y")]], vec!["", "\n", ""]),
+                ("xy\ny\nxy", vec![vec![Some("xy"), Some("x"), Some("y")], vec![Some("y"), None, Some("y")], vec![Some("xy"), Some("x"), Some("y")]], vec!["", "\n", "\n", ""]),
+            ],
+        },
+ Pat {
+            flags: "",
             text: "ab",
             groups: 0,
             inputs: vec![("xx", vec![], vec!["xx"]), ("xabx", vec![vec![Some("ab")]], vec!["x", "x"]), ("abab", vec![vec![Some("ab")], vec![Some("ab")]], vec!["", "", ""])],
         },
-        Pat {
+ Pat {
+            flags: "",
             text: "(a)b",
             groups: 1,
             inputs: vec![("xx", vec![], vec!["xx"]), ("xabx", vec![vec![Some("ab"), Some("a")]], vec!["x", "x"]), ("abab", vec![vec![Some("ab"), Some("a")]; 2], vec!["", "", ""])],
         },
-        Pat {
+ Pat {
+            flags: "",
             text: "(a)|(b)",
             groups: 2,
             inputs: vec![
@@ -53,22 +79,26 @@ fn pats() -> Vec<Pat> {
                 ("ab", vec![vec![Some("a"), Some("a"), None], vec![Some("b"), None, Some("b")]], vec!["", "", ""]),
             ],
         },
-        Pat {
+ Pat {
+            flags: "",
             text: "(a)(x)?(b)",
             groups: 3,
             inputs: vec![("q", vec![], vec!["q"]), ("ab", vec![vec![Some("ab"), Some("a"), None, Some("b")]], vec!["", ""]), ("axb-ab", vec![vec![Some("axb"), Some("a"), Some("x"), Some("b")], vec![Some("ab"), Some("a"), None, Some("b")]], vec!["", "-", ""])],
         },
-        Pat {
+ Pat {
+            flags: "",
             text: nine,
             groups: 9,
             inputs: vec![("zz", vec![], vec!["zz"]), ("abcdefghi", vec![caps("abcdefghi", 9)], vec!["", ""]), ("abcdefghi1abcdefghi", vec![caps("abcdefghi", 9); 2], vec!["", "1", ""])],
         },
-        Pat {
+ Pat {
+            flags: "",
             text: ten,
             groups: 10,
             inputs: vec![("zz", vec![], vec!["zz"]), ("abcdefghij", vec![caps("abcdefghij", 10)], vec!["", ""]), ("-abcdefghij0abcdefghij", vec![caps("abcdefghij", 10); 2], vec!["-", "0", ""])],
         },
-        Pat {
+ Pat {
+            flags: "",
             text: twelve,
             groups: 12,
             inputs: vec![("zz", vec![], vec!["zz"]), ("abcdefghijkl", vec![caps("abcdefghijkl", 12)], vec!["", ""]), ("abcdefghijkl$abcdefghijkl", vec![caps("abcdefghijkl", 12); 2], vec!["", "$", ""])],
@@ -160,7 +190,7 @@ impl Check for C15 {
             chunks: s.chunks(),
             layer_of: s.layer_fn(),
             description: format!(
-                "every replacement string over {:?} ({}) x {} patterns with 0, 1, 2, 3, 9, 10, 12 groups (optional / alternative groups that do not participate) x 3 inputs each (0, 1, 2 matches)",
+                "every replacement string over {:?} ({}) x {} patterns with 0, 1, 2, 3, 9, 10, 12 groups (optional / alternative groups that do not participate; two line-anchored patterns under flag m with three matches) x 3 inputs each (0, 1, 2-3 matches)",
                 ALPHA,
                 s.describe(),
                 pats().len()
@@ -176,7 +206,7 @@ impl Check for C15 {
         let sp = space_for(ctx.tier);
         let (_seg, lo, hi) = sp.locate(chunk);
         let pats = pats();
-        let compiled: Vec<Option<regexml::Regex>> = pats.iter().map(|p| imp::compile(p.text, "", false).ok().map(|_| ()).and_then(|_| regexml::Regex::xpath(p.text, "").ok())).collect();
+        let compiled: Vec<Option<regexml::Regex>> = pats.iter().map(|p| imp::compile(p.text, p.flags, false).ok().map(|_| ()).and_then(|_| regexml::Regex::xpath(p.text, p.flags).ok())).collect();
         for idx in lo..hi {
             let r = repl_string(idx);
             if r.contains('$') || r.contains('\\') {
@@ -221,7 +251,7 @@ impl Check for C15 {
                         continue;
                     }
                     out.inc("validated");
-                    let case = Case::new("REPL", p.text, "").input(inp).repl(&r).api("replace_all");
+                    let case = Case::new("REPL", p.text, p.flags).input(inp).repl(&r).api("replace_all");
                     match (&want, &got) {
                         (Ok(w), Out::Ok(g)) if w == g => out.inc("expect_ok"),
                         (Err(()), Out::Err(EK::InvalidReplacementString)) => out.inc("expect_invalid"),
